@@ -54,6 +54,15 @@ Definition m_max (a : list (list Z)) : Z := match concat a with [] => 0 | x :: t
 Definition m_map {A B : Type} (f : A -> B) (a : list (list A)) : list (list B) := map (map f) a.
 Definition m_all (a : list (list bool)) : bool := forallb (forallb (fun b : bool => b)) a.
 Definition m_eqb (a b : list (list Z)) : bool := list_eqb (list_eqb Z.eqb) a b.      (* jnp.array_equal on equally shaped arrays *)
+(* v.reshape(rows, cols), row-major *)
+Definition reshape2 (rows cols : Z) (flat : list Z) : list (list Z) :=
+  map (fun r => map (fun c => znth 0 flat (r * cols + c)) (zrange cols)) (zrange rows).
+(* jnp.pad(g, pad_width=p): p zeros on every side of a 2-D array *)
+Definition pad2 (p : Z) (g : list (list Z)) : list (list Z) :=
+  map (fun i => map (fun j => if inb (zlen g) (i - p) && inb (zlen (hd [] g)) (j - p) then gat 0 g (i - p) (j - p) else 0)
+                    (zrange (zlen (hd [] g) + 2 * p))) (zrange (zlen g + 2 * p)).
+(* jax.lax.dynamic_slice_in_dim(l, start, size): the start is normalised, then clamped into [0, n - size] *)
+Definition dyn_slice {A : Type} (l : list A) (start size : Z) : list A := firstn_z size (skipn_z (dyn_start (zlen l) size start) l).
 Definition lax_switch {A B : Type} (i : Z) (fs : list (A -> B)) (d : A -> B) (x : A) : B :=
   nth (Z.to_nat (Z.max 0 (Z.min (zlen fs - 1) i))) fs d x.
 '''
@@ -101,7 +110,7 @@ class Tr:
             raise Unsupported("unknown name " + n.id)
         if isinstance(n, ast.Attribute) and u(n) == "jnp.dot":
             return "dot_bf", ("fn", ["VB", "VF"], "F")
-        if isinstance(n, ast.Attribute):
+        if isinstance(n, ast.Attribute) and n.attr != "shape":
             if u(n).startswith("self.") and "self" not in self.env and "." in u(n)[5:] and u(n)[5:] in S.get("methods", {}):
                 c, pts, rt = S["methods"][u(n)[5:]]
                 return c, ("fn", pts, rt)
@@ -204,6 +213,23 @@ class Tr:
             if ta == tb == "Pos" and op is ast.Eq:
                 return "(Position_eq %s %s)" % (a, b), "B"
             raise Unsupported("comparison %s on %s, %s" % (op.__name__, ta, tb))
+        if isinstance(n, ast.Attribute) and n.attr == "shape":
+            v, t = self.expr(n.value)
+            if t in ("MZ", "MB"):
+                return "(zlen %s, zlen (hd [] %s))" % (v, v), ("tuple", ["Z", "Z"])
+            if t in ("VZ", "VB"):
+                return "(zlen %s)" % v, ("shape1",)
+            raise Unsupported(".shape of a %s" % (t,))
+        if isinstance(n, ast.Subscript) and isinstance(n.value, ast.Attribute) and n.value.attr == "shape":
+            v, t = self.expr(n.value.value)
+            k = u(n.slice)
+            if t in ("MZ", "MB") and k in ("-1", "1"):
+                return "(zlen (hd [] %s))" % v, "Z"
+            if t in ("MZ", "MB") and k in ("-2", "0"):
+                return "(zlen %s)" % v, "Z"
+            if t in ("VZ", "VB") and k in ("-1", "0"):
+                return "(zlen %s)" % v, "Z"
+            raise Unsupported("shape subscript " + u(n))
         if isinstance(n, ast.Subscript):
             v, t = self.expr(n.value)
             if t == "VB" and not isinstance(n.slice, (ast.Tuple, ast.Slice)):
@@ -365,6 +391,8 @@ class Tr:
                 i, ti = self.expr(idx)
                 if ti == "Z":
                     return "(jset %s %s %s)" % (arr, i, val), "VZ"
+            if ta == "VZ" and tv == "Z" and not isinstance(idx, (ast.Tuple, ast.Call)) and self.expr(idx)[1] == "VZ":
+                return "(scatter_const %s %s %s)" % (arr, self.expr(idx)[0], val), "VZ"
             if ta == "VB" and tv == "B" and not isinstance(idx, (ast.Tuple, ast.Call)):
                 i, ti = self.expr(idx)
                 if ti == "VZ":
@@ -423,6 +451,43 @@ class Tr:
             if tg[0] == "fn" and tg[1] == ["Pos", "Pos"] and tg[2] == "B" and tx == ty == "VPos":
                 return "(map (fun x_ : Z * Z => map (%s x_) %s) %s)" % (g, ys, xs), "MB"
             raise Unsupported("nested vmap types")
+        if isinstance(n.func, ast.Attribute) and n.func.attr == "sum" and not n.args and not kws:
+            v, t = self.expr(n.func.value)
+            if t == "MB":
+                return "(m_sum %s)" % v, "Z"
+            if t == "MZ":
+                return "(zsum (map zsum %s))" % v, "Z"
+        if isinstance(n.func, ast.Attribute) and n.func.attr == "reshape" and len(n.args) == 1 and isinstance(n.args[0], ast.Starred) and not kws:
+            v, t = self.expr(n.func.value)
+            sh, tsh = self.expr(n.args[0].value)
+            if t == "VZ" and tsh == ("tuple", ["Z", "Z"]):
+                return "(let '(r_, c_) := %s in reshape2 r_ c_ %s)" % (sh, v), "MZ"
+        if f == "jnp.zeros" and len(n.args) == 1 and isinstance(n.args[0], ast.Tuple) and len(n.args[0].elts) == 1 \
+                and [(k, u(x)) for k, x in kws.items()] == [("dtype", "jnp.int32")]:
+            v, t = self.expr(n.args[0].elts[0])
+            if t == "Z":
+                return "(repeat 0 (Z.to_nat %s))" % v, "VZ"
+        if f == "jnp.pad" and len(n.args) == 1 and set(kws) == {"pad_width"}:
+            v, t = self.expr(n.args[0])
+            p_, tp = self.expr(kws["pad_width"])
+            if t == "MZ" and tp == "Z":
+                return "(pad2 %s %s)" % (p_, v), "MZ"
+        if f == "jax.lax.dynamic_slice_in_dim" and len(n.args) == 1 and set(kws) == {"start_index", "slice_size", "axis"}:
+            v, t = self.expr(n.args[0])
+            (st_, tst), (sz, tsz) = self.expr(kws["start_index"]), self.expr(kws["slice_size"])
+            ax = u(kws["axis"])
+            if t == "MZ" and tst == tsz == "Z" and ax == "-2":
+                return "(dyn_slice %s %s %s)" % (v, st_, sz), "MZ"
+            if t == "MZ" and tst == tsz == "Z" and ax == "-1":
+                return "(map (fun row_ : list Z => dyn_slice row_ %s %s) %s)" % (st_, sz, v), "MZ"
+        if f == "jnp.equal" and len(n.args) == 2 and not kws:
+            (a, ta), (b, tb) = self.expr(n.args[0]), self.expr(n.args[1])
+            if ta == "MZ" and tb == "Z":
+                return "(m_map (fun x_ : Z => Z.eqb x_ %s) %s)" % (b, a), "MB"
+        if f == "jnp.array" and len(n.args) == 2 and u(n.args[1]) == "float" and not kws and S.get("reward_codes"):
+            v, t = self.expr(n.args[0])
+            if t == "Z":
+                return v, "Z"        # a float reward constant carried as an opaque integer code (the code is only ever SELECTED)
         if f == "jnp.zeros_like" and len(n.args) == 1 and not kws:
             v, t = self.expr(n.args[0])
             if t == "MB":
@@ -563,6 +628,12 @@ class Tr:
             return "(%s %s)" % (g, " ".join(v for v, _ in args)), tg[2]
         if tg[0] == "fn" and not n.args and set(kws) == {"observation"} and tg[1] == ["Obs"]:
             return g, tg[2]
+        names = S.get("kwnames", {}).get(f[5:] if f.startswith("self.") else f)
+        if tg[0] == "fn" and not n.args and names is not None and set(kws) == set(names):      # all-keyword call of a known function
+            args = [self.expr(kws[k]) for k in names]
+            if [t for _, t in args] != list(tg[1]):
+                raise Unsupported("call %s: keyword argument types %s, expected %s" % (f, [t for _, t in args], tg[1]))
+            return "(%s %s)" % (g, " ".join(v for v, _ in args)), tg[2]
         raise Unsupported("call " + f)
 
     # ------------------------------------------------------------------ statements of a function body -> nested lets
